@@ -3,9 +3,14 @@
    else the raw body; otherwise the message itself), how it is decoded (exact CTE value; base64 = RFC
    4648 by C16; undecodable base64 = error), that MIME errors make the body an error, the depth
    limit, and the exists / for-each semantics of attachment conditions and blocks.
-   NOT proved: the flattening theorem (attachments (render_mime t) = pre-order list of the parts of t);
-   it is checked by the correspondence of harness/c11.py against generated trees with ground truth. *)
-From MD Require Import Bytes Generated DecodeDefs DecodeSpec HeaderDefs MimeDefs MimeProofs.
+   Boundary scanning: for every body in RFC 2046 form (preamble, delimiter line + part text for each part, closing
+   delimiter, epilogue) in which no other line is a delimiter line of this boundary, the part loop returns exactly
+   the part texts in order and sees the terminator (C11_parts_of_body); and one level of flattening: if each part text
+   parses to a message whose own attachments are known, the attachments of the multipart are the parts in pre-order,
+   each followed by its own (C11_flatten_step) - the inductive step of the flattening theorem.
+   NOT proved: the closed form over whole rendered trees (it needs the header round trip of every part composed with
+   this step); it is checked by the correspondence of harness/c11.py against generated trees with ground truth. *)
+From MD Require Import Bytes Generated DecodeDefs DecodeSpec HeaderDefs MimeDefs MimeProofs MimeProofs2.
 
 Theorem C11_body_not_alternative : forall m, is_content_type m s_mp_alt = false -> get_body m = decode_body m.
 Proof. exact get_body_not_alternative. Qed.
@@ -53,3 +58,23 @@ Theorem C11_attachment_block_error : forall f atts acc,
   (exists a, In a atts /\ f a = RError) -> attachment_block f atts acc = RError.
 Proof. exact attachment_block_error. Qed.
 Print Assumptions C11_attachment_block_error.
+
+Theorem C11_parts_of_body : forall b pre kids epi, nonl b = true -> quiet b pre -> Forall (quiet b) kids ->
+  let body := pre ++ parts_text b kids epi in
+  parts_loop (S (S (2 * length body))) b body None = Some (kids, true).
+Proof. exact parts_of_body. Qed.
+Print Assumptions C11_parts_of_body.
+
+Theorem C11_flatten_step : forall d m type b pre kids epi (subs : list (msg * list msg)),
+  get_header1 (m_headers m) s_content_type = Some type -> parseboundary type = PB b -> nonl b = true ->
+  m_body m = pre ++ parts_text b kids epi -> quiet b pre -> Forall (quiet b) kids ->
+  Forall2 (fun k asub => parse_part k = Some (fst asub) /\ parseattachments d (fst asub) = AOk (snd asub)) kids subs ->
+  parseattachments (S d) m = AOk (flat_map (fun asub => fst asub :: snd asub) subs).
+Proof. exact flatten_step. Qed.
+Print Assumptions C11_flatten_step.
+
+(* non-vacuity: boundary "b", preamble "x\n", parts "A: 1\n\none\n" and "--bb\n", epilogue "e" *)
+Example C11_example_parts :
+  parts_loop 200 [98%N] (ascii [120;10; 45;45;98;10; 65;58;32;49;10;10;111;110;101;10; 45;45;98;10; 45;45;98;98;10; 45;45;98;45;45;10; 101]%nat) None
+  = Some ([ascii [65;58;32;49;10;10;111;110;101;10]%nat; ascii [45;45;98;98;10]%nat], true).
+Proof. vm_compute. reflexivity. Qed.
